@@ -15,7 +15,7 @@ from vmon.libutil import lib_warnings, load_definition, monitored
 
 LEVEL = "exploration"
 SHARDS = {"quick": 16, "thorough": 16}
-MUST = ["histories", "outputs.joined", "outputs.single", "model.orphans", "model.gaps", "model.superseded", "wraparound.groups", "with_prefix_bytes", "mixed_header_bits", "option.parse_bad_pkts_false", "outputs.withheld_as_bad"]
+MUST = ["histories", "outputs.joined", "outputs.single", "model.orphans", "model.gaps", "model.superseded", "wraparound.groups", "with_prefix_bytes", "mixed_header_bits", "many_open_groups", "retransmissions", "option.parse_bad_pkts_false", "outputs.withheld_as_bad"]
 RULE = ("history = sequence of (flag, apid, in-sequence|gap) symbols turned into real CCSDS packets with unique ids and "
         "fed to packet_generator(combine_segmented_packets=True, secondary_header_bytes=s) as one byte stream; the "
         "recorded outputs (raw bytes of each yielded packet, warnings per step) are compared with a per-APID state "
@@ -55,10 +55,15 @@ def make_packets(history, start, apids, hdr_mode=0):
     for i, (flag, ai, gap) in enumerate(history):
         apid = apids[ai]
         # gap: False/True (in sequence / skip one), or an explicit integer step (0 = duplicate count, -1 = reordered, ...)
-        step = (2 if gap else 1) if isinstance(gap, bool) else gap
+        step = (2 if gap else 1) if isinstance(gap, bool) else (0 if isinstance(gap, tuple) else gap)
         seq = (ctr[apid] + step) % 16384
         ctr[apid] = seq
         pid = b"\xa5" + (i + 1).to_bytes(2, "big") + b"\x5a"
+        if isinstance(gap, tuple) and gap[0] == "resend":
+            # a byte-identical retransmission of the packet sent `gap[1]` steps earlier on this APID's history position
+            src = out[gap[1]]
+            out.append({"raw": src["raw"], "flag": src["flag"], "apid": src["apid"], "seq": src["seq"], "id": src["id"], "i": i, "resend_of": gap[1]})
+            continue
         data = pid + bytes(DATA_LEN - 8) + pid
         raw = bytes(P.create_ccsds_packet(data, apid=apid, sequence_flags=FLAGS[flag], sequence_count=seq,
                                           version_number=header_bits(hdr_mode, i)[0], type=header_bits(hdr_mode, i)[1],
@@ -181,7 +186,8 @@ def run_history(ctx, defn, history, sh, start, apids, sample=False, k=None, hdr_
     got_bytes = [b for b, _ in got]
     # (2) model-independent: no raw packet id in two outputs
     seen = {}
-    for oi, b in enumerate(got_bytes):
+    has_resend = any("resend_of" in p for p in pkts)     # byte-identical retransmissions carry the same id: identity by id is not defined
+    for oi, b in enumerate(got_bytes if not has_resend else []):
         for pid in set(ids_in(b, pkts)):
             if pid in seen:
                 ctx.violation(f"reuse/raw-packet-in-two-outputs/{hs}", f"raw packet #{pid} contributes to outputs {seen[pid]} and {oi}", wit)
@@ -258,6 +264,26 @@ def run(ctx):
             if ctx.mine(hi):
                 for mode in (1, 2, 3, 4):
                     run_history(ctx, defn, list(history), shs[(hi + mode) % 4], 16383, apids2, hdr_mode=mode)
+    # ---- many APIDs with a group open at the same time (17, 40, 300): every one of them is completed ----------------------------
+    for napids in (17, 40, 300):
+        if not ctx.mine(napids):
+            continue
+        aps = tuple(range(5, 5 + napids))
+        hist = [("F", a, False) for a in range(napids)] + [("C", a, False) for a in range(0, napids, 2)] + [("L", a, False) for a in reversed(range(napids))]
+        run_history(ctx, defn, hist, 4, 16383, aps, k=0)
+        ctx.count("many_open_groups")
+    # ---- byte-identical retransmissions: a repeated FIRST restarts the group like any FIRST; a repeated CONTINUATION / LAST is
+    #      an out-of-sequence member --------------------------------------------------------------------------------------------
+    for hi, hist in enumerate(([("F", 0, False), ("C", 0, False), ("F", 0, ("resend", 0)), ("L", 0, False)],
+                               [("F", 0, False), ("F", 0, ("resend", 0)), ("L", 0, False)],
+                               [("F", 0, False), ("C", 0, False), ("C", 0, ("resend", 1)), ("L", 0, False)],
+                               [("F", 1, False), ("C", 1, False), ("L", 1, False), ("L", 1, ("resend", 2)), ("F", 1, ("resend", 0)), ("C", 1, ("resend", 1)), ("L", 1, ("resend", 2))],
+                               [("U", 0, False), ("U", 0, ("resend", 0)), ("F", 0, False), ("U", 0, ("resend", 0)), ("L", 0, False)])):
+        if not ctx.mine(hi):
+            continue
+        for sh in (0, 4):
+            run_history(ctx, defn, hist, sh, 20, apids2, k=0)
+            ctx.count("retransmissions")
     # ---- random long histories over 3 APIDs -------------------------------------------------------------
     apids3 = (0, 7, 1024)
     for i in range(ctx.size(4000, 600_000) // ctx.nshards):
